@@ -213,7 +213,7 @@ class C12(Check):
     level = "model_checking"
     rule = ("(a) all write programs of length <= L over sizes {0,1,2047,2048,2049,5000} x forms {bytes, "
             "memoryview, sliced memoryview, int-format memoryview, 2-dimensional byte memoryview, memoryview released by "
-            "the caller after write() returned}, max_write_buffer_size in {None, 4096}; "
+            "the caller after write() returned}, max_write_buffer_size in {None, 4096, 0}; "
             "each transport send() answers one of {accept all, EAGAIN, 1 byte, half}, and a blocked socket "
             "may become writable between writes, and the caller may cancel a still pending write future; deviation bound D; (b) BFS over _StreamBuffer histories "
             "(append of 8 size/kind combinations, peek, advance by 1 / len-1 / len / first-buffer boundary "
@@ -232,6 +232,7 @@ class C12(Check):
     def partitions(self, tier):
         L, D, K = self.params(tier)
         parts = [("w", L, D, mb, s, 16) for mb in (None, 4096) for s in range(16)]
+        parts += [("w", min(L, 2), D, 0, s, 4) for s in range(4)]        # a limit of 0 is a limit: only empty writes fit
         parts += [("b", K, i) for i in range(len(B_OPS))]
         return parts
 
